@@ -217,25 +217,27 @@ pub fn rec_fieldnf(_a: &Args, out: &mut Out) {
             }
         }
         for k in ks {
-            let pr = match guarded(|| probe(k, 0.0)) {
-                Ok(p) => p,
-                Err(p) => {
-                    out.emit(json!({"ev": "FieldNf", "id": f.id, "w": f.w, "k": k.to_string(), "panic": p, "enc_err": false, "p": [], "q": [], "rt_err": false}));
-                    continue;
-                }
-            };
-            if pr.enc_err {
-                out.emit(json!({"ev": "FieldNf", "id": f.id, "w": f.w, "k": k.to_string(), "panic": "", "enc_err": true, "p": [], "q": [], "rt_err": false}));
-                continue;
-            }
-            let mask = if f.w == 64 { u64::MAX } else { (1u64 << f.w) - 1 };
-            let raw = pr.raw & mask;
-            match guarded(|| (f.rt)(raw)) {
-                Ok(o) => out.emit(json!({"ev": "FieldNf", "id": f.id, "w": f.w, "k": k.to_string(), "panic": "", "enc_err": false, "p": pat_bits(raw, f.w), "q": pat_bits(o.q, f.w),
-                    "rt_err": o.dec_err || o.enc_err})),
-                Err(p) => out.emit(json!({"ev": "FieldNf", "id": f.id, "w": f.w, "k": k.to_string(), "panic": p, "enc_err": false, "p": pat_bits(raw, f.w), "q": [], "rt_err": false})),
-            }
+            out.emit(fieldnf_event(f, k));
         }
+    }
+}
+
+/// one FieldNf observation: encode k grid units, decode the written pattern, encode again
+pub fn fieldnf_event(f: &FieldFns, k: i64) -> J {
+    let probe = f.probe.expect("real-valued field");
+    let pr = match guarded(|| probe(k, 0.0)) {
+        Ok(p) => p,
+        Err(p) => return json!({"ev": "FieldNf", "id": f.id, "w": f.w, "k": k.to_string(), "panic": p, "enc_err": false, "p": [], "q": [], "rt_err": false}),
+    };
+    if pr.enc_err {
+        return json!({"ev": "FieldNf", "id": f.id, "w": f.w, "k": k.to_string(), "panic": "", "enc_err": true, "p": [], "q": [], "rt_err": false});
+    }
+    let mask = if f.w == 64 { u64::MAX } else { (1u64 << f.w) - 1 };
+    let raw = pr.raw & mask;
+    match guarded(|| (f.rt)(raw)) {
+        Ok(o) => json!({"ev": "FieldNf", "id": f.id, "w": f.w, "k": k.to_string(), "panic": "", "enc_err": false, "p": pat_bits(raw, f.w), "q": pat_bits(o.q, f.w),
+            "rt_err": o.dec_err || o.enc_err}),
+        Err(p) => json!({"ev": "FieldNf", "id": f.id, "w": f.w, "k": k.to_string(), "panic": p, "enc_err": false, "p": pat_bits(raw, f.w), "q": [], "rt_err": false}),
     }
 }
 
